@@ -567,3 +567,91 @@ func rootGlobal(v ssa.Value) *ssa.Global {
 	}
 	return nil
 }
+
+func init() { register("C05.g", ruleC05g) }
+
+// ruleC05g: the declassifiers look at the value that is dispatched. On a
+// reflective route the dispatcher receives X.Interface(), whose dynamic type
+// differs from X.Type() when X is of interface kind (an element of
+// []interface{}, a map value of interface type); the safe-type registry must
+// therefore (also) be consulted with the dynamic type of that value.
+func ruleC05g(c *Ctx) []*report.Result {
+	r := report.NewResult("C05.g", "on each reflective route, between `p.arg = X.Interface()` and the method dispatch, the safe-type registry is consulted with reflect.TypeOf of that same value (its dynamic type), as the SafeValue assertion is: a registered safe type held in an interface-typed slice element or map value is recognised before its String/Error/Format method is dispatched", 2)
+	hm := c.P.Func("internal/rfmt", "(*pp).handleMethods")
+	if hm == nil {
+		r.Undecide("(*pp).handleMethods not found")
+		return []*report.Result{r}
+	}
+	routes := 0
+	for _, fn := range c.P.ModuleFunctions() {
+		for _, b := range fn.Blocks {
+			for _, ins := range b.Instrs {
+				call, ok := ins.(*ssa.Call)
+				if !ok || call.Common().StaticCallee() != hm {
+					continue
+				}
+				// the dominating store p.arg = X.Interface()
+				var ifaceVal ssa.Value
+				var storeBlk *ssa.BasicBlock
+				for _, sb := range fn.Blocks {
+					if !(sb == b || sb.Dominates(b)) {
+						continue
+					}
+					for _, si := range sb.Instrs {
+						if st, ok := si.(*ssa.Store); ok {
+							if fa, ok := st.Addr.(*ssa.FieldAddr); ok && fieldName(fa) == "arg" {
+								if cl, ok := st.Val.(*ssa.Call); ok {
+									if f := cl.Common().StaticCallee(); f != nil && f.String() == "(reflect.Value).Interface" {
+										ifaceVal, storeBlk = cl, sb
+									}
+								}
+							}
+						}
+					}
+				}
+				if ifaceVal == nil {
+					continue // plain-operand route
+				}
+				routes++
+				okDyn := false
+				for _, lb := range fn.Blocks {
+					if !(lb == b || lb.Dominates(b)) || !(storeBlk == lb || storeBlk.Dominates(lb)) {
+						continue
+					}
+					for _, li := range lb.Instrs {
+						lk, ok := li.(*ssa.Lookup)
+						if !ok {
+							continue
+						}
+						if u, ok := lk.X.(*ssa.UnOp); !ok {
+							continue
+						} else if _, ok := u.X.(*ssa.Global); !ok {
+							continue
+						}
+						tc, ok := lk.Index.(*ssa.Call)
+						if !ok {
+							continue
+						}
+						if f := tc.Common().StaticCallee(); f == nil || f.String() != "reflect.TypeOf" {
+							continue
+						}
+						arg := tc.Common().Args[0]
+						if arg == ifaceVal {
+							okDyn = true
+						}
+						if u, ok := arg.(*ssa.UnOp); ok {
+							if fa, ok := u.X.(*ssa.FieldAddr); ok && fieldName(fa) == "arg" {
+								okDyn = true
+							}
+						}
+					}
+				}
+				r.Check(okDyn, shortFn(fn.String())+" / registry consulted with the dispatched value's type", c.P.Pos(call.Pos()), "the registry is looked up only with the static type X.Type(); for X of interface kind the dispatched value X.Interface() has another (dynamic) type: a registered safe type with a String/Error/Format method inside []interface{} or map[...]interface{} is printed as unsafe")
+			}
+		}
+	}
+	if routes < 2 {
+		r.Undecide(fmt.Sprintf("found %d reflective dispatch routes (floor 2)", routes))
+	}
+	return []*report.Result{r}
+}
